@@ -84,7 +84,7 @@ func (a *Authentication) DID() string {
 }
 
 func (a *Authentication) UnmarshalJSON(b []byte) error {
-	if b == nil {
+	if len(b) == 0 {
 		return nil
 	}
 	type Alias Authentication
